@@ -457,18 +457,77 @@ def Obj.restored (ob : Obj) : Obj :=
 def Pool.restore (p : Pool) (which : Option ObjId) : Pool :=
   { p with obj := fun j => if which = none ∨ which = some j then (p.obj j).restored else p.obj j }
 
+/-- Can the saved local value `v` of the deferring attribute `(j, n)` be assigned again on a copy?  The chain
+below it must be complete, and the trait at its end must accept `v` — `E` holds the validators that run
+during a restore (the real `Int` / `Range` traits of the harness; a value stored under another delegate, or
+through an undeclared target, need not be acceptable to the current one). -/
+def reassignable (E : Env) (p : Pool) (j : ObjId) (n : Name) (d : DelegInfo) (v : Val) : Bool :=
+  match walk p (p.obj j).cls.pfx 100 j d n with
+  | .error _ => false
+  | .ok (_, _, .plain vid _ _) => (match E.validate vid 0 v with | .ok _ => true | .error _ => false)
+  | .ok _ => true
+
 /-- Does the copy raise?  `__setstate__` re-assigns every saved local value of a deferring attribute through
 `setattr_delegate` (`trait_set(**state)`), which needs the complete chain below the attribute to find the
 validating trait: with the delegate None (or the chain longer than the limit) it raises DelegationError and
 the copy / unpickling fails (known finding: a state the object was in cannot be restored). -/
-def Pool.restoreFails (p : Pool) (which : Option ObjId) : Bool :=
+def Pool.restoreFails (E : Env) (p : Pool) (which : Option ObjId) : Bool :=
   (List.range p.size).any fun j =>
     (which == none || which == some j) &&
     (p.obj j).cls.deferNames.any fun nd =>
-      ((p.obj j).dict nd.1).isSome &&
-      (match walk p (p.obj j).cls.pfx 100 j nd.2 nd.1 with
-       | .error _ => true
-       | .ok _ => false)
+      match (p.obj j).dict nd.1 with
+      | none => false
+      | some v => !(reassignable E p j nd.1 nd.2 v)
+
+/-! ### Clones: `copy.deepcopy` / `clone_traits` -/
+
+/-- `new = cls.__new__(cls); new._init_trait_listeners()` followed by the first loop of `copy_traits`
+(has_traits.py `clone_traits`, `copy_traits`): the plain values and the delegate reference are assigned, every
+deferring attribute has its forwarder (hooked on the delegate), no deferring attribute has a local value yet. -/
+def Obj.fresh (ob : Obj) : Obj :=
+  { ob with
+    dict := fun n => match ob.cls.trait n with | .defer _ => none | _ => ob.dict n,
+    fwd := fun n => match ob.cls.trait n with | .defer _ => some ob.deleg | _ => none }
+
+/-- Order in which `copy.deepcopy` of the list of all objects completes the clones: an object's delegate
+(`d`, copy mode deep) is cloned — completely — while the object's plain traits are copied, before the
+object's own deferring attributes are assigned. -/
+def cloneVisit (p : Pool) : Nat → ObjId → List ObjId → List ObjId
+  | 0, _, acc => acc
+  | f + 1, o, acc =>
+    if acc.contains o then acc
+    else
+      let acc' := match (p.obj o).deleg with
+        | some x => cloneVisit p f x acc
+        | none => acc
+      if acc'.contains o then acc' else acc' ++ [o]
+
+def cloneOrder (p : Pool) : List ObjId :=
+  (List.range p.size).foldl (fun acc o => cloneVisit p (p.size + 1) o acc) []
+
+/-- `setattr(clone, n, v)` on a deferring attribute while the clone is built: no handler is attached yet, so
+`setattr_trait` neither reads the old value nor notifies; a failing assignment is swallowed by `copy_traits`. -/
+def cloneAssign (E : Env) (q : Pool) (o : ObjId) (n : Name) (d : DelegInfo) (v : Val) : Pool :=
+  if reassignable E q o n d v then
+    match walk q (q.obj o).cls.pfx 100 o d n with
+    | .error _ => q
+    | .ok (x, t, _) => if d.modify then q.setDict x t (some v) else unlink (q.setDict o n (some v)) o n
+  else q
+
+/-- `copy.deepcopy` of the whole pool (`HasTraits.__deepcopy__` = `clone_traits(copy='deep')`).  The second
+loop of `copy_traits` (has_traits.py:1614-1631) ASSIGNS to every deferring attribute of the clone the value
+read through the original: `setattr(clone, name, getattr(original, name))`.  For a PrototypedFrom attribute
+this is a local assignment — the clone's attribute holds a local value and has lost its forwarder although
+the original was linked (known finding `clone-localises-linked-prototype`); for a DelegatesTo attribute it is
+a write through the clone's chain (to its end, finding F20).  An attribute that cannot be read or assigned is
+skipped ("unassignable").  Validators are assumed to accept the values they stored. -/
+def Pool.cloneAll (E : Env) (p : Pool) : Pool :=
+  let p0 : Pool := { p with obj := fun j => (p.obj j).fresh }
+  (cloneOrder p).foldl (fun q o =>
+    (p.obj o).cls.deferNames.foldl (fun q' nd =>
+      match read p p.fuel o nd.1 with
+      | .ok v => cloneAssign E q' o nd.1 nd.2 v
+      | .error _ => q') q) p0
 
 /-- Is `o` the delegate of another object?  (`copy.copy` of such an object is skipped by both drivers.) -/
 def isDelegateOfOther (p : Pool) (o : ObjId) : Bool :=
